@@ -34,7 +34,10 @@ class SimCancel(BaseException):
 _CANCEL_TOOL = 4
 
 
-def _cancellable(sf, at, fn, *a, **kw):
+_INJECTABLE = {"SimCancel": SimCancel, "MemoryError": MemoryError, "RecursionError": RecursionError}
+
+
+def _cancellable(sf, at, fn, *a, exc="SimCancel", **kw):
     """Run fn(*a, **kw); at the ``at``-th line event inside the selfies package raise
     SimCancel at that point (sys.monitoring callbacks propagate their exceptions into the
     monitored code).  -> outcome tuple; ('err', 'SimCancel', 'func:line', None) if it fired."""
@@ -50,7 +53,11 @@ def _cancellable(sf, at, fn, *a, **kw):
         st["n"] += 1
         if st["n"] == at:
             st["fired"] = "%s:%d" % (code.co_name, line)
-            raise SimCancel()
+            # SimCancel (a BaseException: Ctrl-C, time-out, cancelled job) or one of the two
+            # exceptions the interpreter itself can raise at any point of Python code: MemoryError
+            # (a failing allocation) and RecursionError - both *are* Exceptions, so an
+            # `except Exception` inside the library may catch them
+            raise _INJECTABLE[exc]()
 
     mon.use_tool_id(_CANCEL_TOOL, "verif-cancel")
     try:
@@ -62,6 +69,10 @@ def _cancellable(sf, at, fn, *a, **kw):
             o = ("err", "SimCancel", st["fired"], None)
         finally:
             mon.set_events(_CANCEL_TOOL, 0)
+        if st["fired"] and o[1] != "SimCancel":
+            # the injected MemoryError / RecursionError came back to the caller - or was swallowed
+            # inside the library, in which case what the call returned is not to be relied on
+            o = ("err", "SimCancel", st["fired"] + ":" + exc + (":swallowed" if o[0] == "ok" else ""), None)
     finally:
         mon.register_callback(_CANCEL_TOOL, mon.events.LINE, None)
         mon.free_tool_id(_CANCEL_TOOL)
@@ -405,16 +416,56 @@ def _on_alarm(signum, frame):
 OP_TIMEOUT_S = 25      # a call that does not return is recorded as ('err', 'Hang') - data for the oracle
 
 
+class _SecondCaller:
+    """A long-lived second thread of the simulated caller.  Ops marked ``thr`` are issued from it,
+    strictly one after the other with those of the main thread (a hand-over per op, nothing
+    concurrent): the history stays sequential, only the calling thread varies."""
+
+    def __init__(self):
+        import queue
+        import threading
+        self.q, self.r = queue.SimpleQueue(), queue.SimpleQueue()
+        self.t = threading.Thread(target=self._loop, daemon=True)
+        self.t.start()
+
+    def _loop(self):
+        while True:
+            f = self.q.get()
+            if f is None:
+                return
+            try:
+                self.r.put(("ok", f()))
+            except BaseException as e:
+                self.r.put(("exc", e))
+
+    def call(self, f):
+        self.q.put(f)
+        tag, v = self.r.get()
+        if tag == "exc":
+            raise v
+        return v
+
+
 def execute(sf, ops, passive, warn_mode="ignore"):
     import signal
     warnings.simplefilter(warn_mode)
     signal.signal(signal.SIGALRM, _on_alarm)
     H = {}
     log = []
+    second = None
     for pos, op in enumerate(ops):
         try:
             signal.alarm(OP_TIMEOUT_S)
-            rec = _execute_one(sf, op, pos, H, passive)
+            if op.get("thr"):
+                if second is None:
+                    second = _SecondCaller()
+                try:
+                    rec = second.call(lambda: _execute_one(sf, op, pos, H, passive))
+                except _OpTimeout:
+                    second = None      # that thread is stuck in the call: the next op gets a new one
+                    raise
+            else:
+                rec = _execute_one(sf, op, pos, H, passive)
         except _OpTimeout:
             rec = {"r": ("err", "Hang", "call did not return within %d s" % OP_TIMEOUT_S)}
             if passive:
@@ -471,14 +522,16 @@ def _execute_one(sf, op, pos, H, passive):
             rec["r"] = o[:3]
         elif k == "decode":
             if op.get("cancel"):
-                o = _cancellable(sf, op["cancel"], sf.decoder, op["x"], compatible=op["compatible"], attribute=op["attribute"])
+                o = _cancellable(sf, op["cancel"], sf.decoder, op["x"], exc=op.get("exc", "SimCancel"),
+                                 compatible=op["compatible"], attribute=op["attribute"])
             else:
                 o = outcome(sf.decoder, op["x"], compatible=op["compatible"], attribute=op["attribute"])
             H[idx] = o[3]
             rec["r"] = o[:3]
         elif k == "encode":
             if op.get("cancel"):
-                o = _cancellable(sf, op["cancel"], sf.encoder, op["s"], strict=op["strict"], attribute=op["attribute"])
+                o = _cancellable(sf, op["cancel"], sf.encoder, op["s"], exc=op.get("exc", "SimCancel"),
+                                 strict=op["strict"], attribute=op["attribute"])
             else:
                 o = outcome(sf.encoder, op["s"], strict=op["strict"], attribute=op["attribute"])
             H[idx] = o[3]
@@ -508,6 +561,10 @@ def _execute_one(sf, op, pos, H, passive):
                 rec["r"] = ("ok", (a[:2], singles, outs), None)
         else:
             raise ValueError("unknown op %r" % (k,))
+        if not op.get("keep_exc"):
+            for key in (idx, ("ret", idx)):
+                if isinstance(H.get(key), BaseException):
+                    H[key] = None      # the caller drops the exception at once (and with it its traceback)
         if passive:
             rec["p"] = _passive(sf)
         return rec
@@ -628,6 +685,10 @@ class Verifier:
             k = op["op"]
             r = rec["r"]
             changes_at[op.get("id", idx)] = model.changes if model.known else -1 - idx
+            if op.get("thr"):
+                probe("calls_from_the_callers_second_thread")
+            if op.get("keep_exc") and r[0] == "err":
+                probe("fault_caller_keeps_the_exception_object")
             if k == "set_from":
                 if r[0] == "skip":
                     continue
@@ -745,6 +806,7 @@ class Verifier:
                 # the call was cancelled by the simulator at an arbitrary step: nothing is
                 # demanded of this call, everything of the calls that follow it
                 probe("fault_cancelled_call:" + k)
+                probe("fault_injected_exception:" + op.get("exc", "SimCancel") + (":swallowed" if str(r[2]).endswith(":swallowed") else ""))
                 last_fault = idx
                 since_change += 1
             elif k == "decode":
